@@ -68,6 +68,50 @@ def named_call(t, name):
     return isinstance(t, tuple) and len(t) >= 4 and t[0] in ('call', 'vcall') and contracts.fn_simple(t[1]) == name
 
 
+def reserved_rows(F):
+    kw = [g2 for g2 in F.globals if g2['name'] == 'known_words']
+    if not kw:
+        raise AnalysisBroken('known_words not found')
+    rows = []
+    for e in (kw[0].get('init') or {}).get('elts', []):
+        lits = [n for n in walk(e) if n.get('k') == 'lit' and n.get('lt') == 'str']
+        rows.append(bytes(lits[0]['bytes']) if len(lits) == 1 else None)
+    return kw[0], rows
+
+
+def word_eval(t, W, w):
+    """Value of a guard that depends on the word only, for the concrete word w (finite-case evaluation over the rows of the
+    reserved-word table); None when the term is outside this little language."""
+    if t == W:
+        return w
+    if not isinstance(t, tuple) or not t:
+        return None
+    if t[0] == 'k':
+        return t[1]
+    if t[0] == 'castto':
+        return word_eval(t[2], W, w)
+    if t[0] in ('call', 'vcall') and len(t) >= 4 and t[2] == W and not t[3]:
+        nm = contracts.fn_simple(t[1])
+        if nm in ('length', 'size'):
+            return len(w)
+        if nm == 'empty':
+            return len(w) == 0
+        return None
+    if t[0] == 'un' and t[1] in ('!', 'not'):
+        v = word_eval(t[2], W, w)
+        return None if v is None else (not v)
+    if t[0] == 'op' and len(t) == 4:
+        a, b = word_eval(t[2], W, w), word_eval(t[3], W, w)
+        if a is None or b is None or isinstance(a, bytes) or isinstance(b, bytes):
+            return None
+        try:
+            return {'<': a < b, '<=': a <= b, '>': a > b, '>=': a >= b, '==': a == b, '!=': a != b, '+': a + b, '-': a - b,
+                    '*': a * b, '&&': bool(a) and bool(b), '||': bool(a) or bool(b)}.get(t[1])
+        except TypeError:
+            return None
+    return None
+
+
 def run(ck, F):
     ck.explanation = (
         'string_pool::intern, arena::make_string and arena::allocate are evaluated symbolically (all paths); the rule '
@@ -143,6 +187,39 @@ def run(ck, F):
         else:
             ck.fail(R1, f'intern/unrecognised outcome', f'intern has an outcome that is none of empty / reserved / existing / created: returns '
                     f'{contracts.render(v, st, {})[:160]}', loc=f['loc'], fn=f['id'])
+    # a path that ends in the bucket (existing or created) without a failed reserved-word search is acceptable only when its
+    # condition excludes every row of the reserved-word table (decided row by row: the rows are constants)
+    _kwg, _rows = reserved_rows(F)
+    for st, k, v in outs:
+        if k != 'return':
+            continue
+        conds = st.conds
+        if [val for c, val in conds if named_call(c, 'empty') and c[2] == W] == [True]:
+            continue
+        c_known = [val for c, val in conds if named_call(c, 'word_if_known') and c[3] == (W,)]
+        if c_known:
+            continue            # True: the reserved outcome; False: the search failed
+        wordonly = [(c, val) for c, val in conds if find(c, lambda t: t == W) is not None
+                    and find(c, lambda t: isinstance(t, tuple) and t and t[0] in ('elem', 'noelem', 'sym', 'obj', 'global')) is None
+                    and not (isinstance(c, tuple) and c and c[0] in ('noelem',))]
+        passing, undecided = [], None
+        for r in _rows:
+            if r is None:
+                continue
+            vals = [(word_eval(c, W, r), val, c) for c, val in wordonly]
+            und = [c for x, val, c in vals if x is None]
+            if und:
+                undecided = und[0]
+                break
+            if all(bool(x) == val for x, val, c in vals):
+                passing.append(r)
+        if undecided is not None:
+            raise AnalysisBroken('intern: a path reaches the hash buckets without searching the reserved-word table, under a guard on the '
+                                 'word that cannot be decided for the rows of the table: ' + contracts.render(undecided, st, {})[:200])
+        ck.check(R1, 'intern/reserved-first/' + ('&'.join(contracts.render(c, st, {})[:40] + '=' + str(val) for c, val in wordonly) or 'unguarded'),
+                 not passing, f'intern: the reserved word(s) {[p.decode("utf-8", "replace") for p in passing[:4]]} reach the hash buckets without '
+                 f'the reserved-word table being searched (guard: {[contracts.render(c, st, {})[:80] + " is " + str(val) for c, val in wordonly]}): '
+                 'a second String with the content of a reserved word is created', loc=f['loc'], fn=f['id'])
     for k in ('empty', 'reserved', 'existing', 'created'):
         ck.check(R1, 'intern/' + k, kinds.get(k) is True, f'intern: the `{k}` outcome is missing or malformed ({kinds.get(k)})', loc=f['loc'], fn=f['id'])
     # the predicate is full content equality with the word
@@ -173,7 +250,9 @@ def run(ck, F):
         lw = [e for e in st.effects if e[0] == 'write' and e[1][0] == 'fld' and e[1][2] == 'length']
         cp = [e for e in st.effects + [('val', v)] if False]
         copies = [('call', e[1], None, e[3]) for e in st.effects if e[0] == 'fcall' and contracts.fn_simple(e[1]) == 'copy']
-        ok = k == 'return' and hdr is not None and hdr[3] == (('param', 1),) and len(lw) == 1 and lw[0][2] == ('param', 1)
+        # room for at least n bytes is requested (asking for more is harmless), the recorded length is exactly n
+        asked = linear(hdr[3][0], ('param', 1)) if hdr is not None and len(hdr[3]) == 1 else None
+        ok = k == 'return' and asked is not None and asked[0] >= 1 and asked[1] >= 0 and len(lw) == 1 and lw[0][2] == ('param', 1)
         okc = False
         for c in copies:
             a = c[3]
@@ -185,6 +264,14 @@ def run(ck, F):
                  f'copy={[contracts.render(c, st, {})[:120] for c in copies]}', loc=mf['loc'], fn=mf['id'])
     ck.check(R2, 'make_string returns header', all(k == 'return' and find(v, lambda t: named_call(t, 'allocate')) is not None for st, k, v in S3.run(mf['id'])),
              'make_string does not return the allocated header', loc=mf['loc'], fn=mf['id'])
+
+    # ---------------------------------------------------------------- write footprint of the callers of allocate
+    R2b = ck.rule('C03.write-footprint', 'a function that fills a header obtained from allocate(A) writes the length field and '
+                  'data[0 .. A) only: every write and bulk copy through the header is placed as an affine function of the length '
+                  'parameter and compared with A for every length (no byte beyond what allocate guarantees, e.g. an extra terminator)', floor=1)
+    import arena
+    for fid, loc, inst, ok, msg in arena.footprint(F):
+        ck.check(R2b, inst, ok, msg, loc=loc, fn=fid)
 
     # ---------------------------------------------------------------- bounded write (E8)
     R3 = ck.rule('C03.arena-bounds', 'the granule count suffices for header + n bytes for every n, the in-pool path is guarded by the '
